@@ -11,7 +11,7 @@ import itertools
 
 import numpy as np
 
-from mc import ana, framework as fw, records
+from mc import ana, framework as fw, pairhist, records
 
 PROPERTY = "C05"
 META = {
@@ -21,13 +21,13 @@ META = {
              "statistic exceeds 1e3x its tolerance; lattice points are distinct by construction"),
     "exhaustive": True,
     "bounds": {
-        "quick": "N in {16,24,33,64}; 4 schedulers; windows kaiser60/kaiser200/hann/np.kaiser/scipy kaiser/custom callable; orders -1..2; backends numba,numpy (+cuda-sim on a reduced lattice); olap default/0/0.5; (Jdes,Kdes) in {(5,2),(20,10)}; bmin {1,2}; Lmin {1,4}; auto+cross; records id1/id2 + seeded",
+        "quick": "N in {16,24,33,64}; 4 schedulers; windows kaiser60/kaiser200/hann/np.kaiser/scipy kaiser/custom callable/custom callable with interior zeros and negative taps; orders -1..2; backends numba,numpy (+cuda-sim on a reduced lattice); olap default/0/0.5; (Jdes,Kdes) in {(5,2),(20,10)}; bmin {1,2}; Lmin {1,4}; auto+cross; records id1/id2 + seeded",
         "thorough": "adds N in {100,257}, records id3/id4",
     },
     "assumptions": ["reference window for Kaiser: DFT-even I0 definition with beta = alpha(psll)*pi, alpha from the published polynomial",
                     "tolerances: derived rounding bound of the recurrence (see C01)"],
 }
-WINS = ("kaiser60", "kaiser200", "hann", "npkaiser", "spkaiser", "custom")
+WINS = ("kaiser60", "kaiser200", "hann", "npkaiser", "spkaiser", "custom", "customgap")
 SCHEDS = ("lpsd", "ltf", "vectorized_ltf", "new_ltf")
 IN_SIM = __import__("os").environ.get("NUMBA_ENABLE_CUDASIM") == "1"
 
@@ -47,10 +47,12 @@ def shards(tier, seed):
                 out.append({"N": N, "sched": sch, "win": "kaiser200", "backend": "cuda", "seed": seed, "tier": tier,
                             "orders": [order]})
     out.sort(key=lambda s: -s["N"] * (30 if s["backend"] == "cuda" else 1))
-    return out
+    return pairhist.shards_for(PROPERTY) + out
 
 
 def run_shard(shard):
+    if shard.get("part") == "pairs":
+        return pairhist.run_pair_shard(shard, ("plan", "raw", "single", "derived", "nf"))
     if shard["backend"] == "cuda" and not IN_SIM:
         from checks.c01 import _via_sim  # same simulator launcher
         import json, os, subprocess, sys
@@ -97,6 +99,8 @@ def run_shard(shard):
 
 
 def replay(case):
+    if case.get("part") == "pairs":
+        return run_shard(case)["failures"]
     return run_shard({"backend": case["backend"], "case": case})["failures"]
 
 
@@ -156,13 +160,26 @@ def _one(case, full=True, light_single=False):
     if full or light_single:
         js = range(nf) if full else [0, nf - 1]
         for j in js:
-            for how in ("L", "fres"):
+            for how in ("L", "fres", "fres-offgrid", "L-offgrid"):
                 fj = float(pf["f"][j])
+                Lreq = int(pf["L"][j])
                 try:
                     if how == "L":
-                        sb = an.compute_single_bin(fj, L=int(pf["L"][j]))
-                    else:
+                        sb = an.compute_single_bin(fj, L=Lreq)
+                    elif how == "fres":
                         sb = an.compute_single_bin(fj, fres=float(pf["r"][j]))
+                    elif how == "fres-offgrid":
+                        # a resolution that is not fs/integer: the segment length is the nearest integer
+                        fr = float(pf["r"][j]) * 1.07
+                        Lreq = max(1, int(round(fs / fr)))
+                        if Lreq > N:
+                            continue
+                        sb = an.compute_single_bin(fj, fres=fr)
+                    else:
+                        # a frequency between the plan's bins, a length that is not in the plan
+                        fj = float(pf["f"][j]) * 1.013 + 1e-3
+                        Lreq = max(1, min(N, int(pf["L"][j]) - 1 if int(pf["L"][j]) > 1 else 2))
+                        sb = an.compute_single_bin(fj, L=Lreq)
                 except Exception as e:  # noqa: BLE001
                     out["failures"].append(_mk(case, f"single/{how}/raises", f"compute_single_bin({fj!r}, {how}) raised {type(e).__name__}: {e}"))
                     continue
@@ -172,8 +189,8 @@ def _one(case, full=True, light_single=False):
                 Ls = int(sd["L"][0])
                 Ds = np.asarray(sd["D"][0], dtype=np.int64)
                 prob = []
-                if Ls != int(pf["L"][j]):
-                    prob.append(f"L={Ls} != requested {int(pf['L'][j])}")
+                if Ls != Lreq:
+                    prob.append(f"L={Ls} != requested {Lreq}")
                 if float(sd["f"][0]) != fj:
                     prob.append(f"f={sd['f'][0]!r}")
                 if int(sd["K"][0]) != Ds.size or int(sd["navg"][0]) != Ds.size:
